@@ -126,7 +126,7 @@ def jobs(tier):
     return J
 
 
-LEVEL = 'bounded'
+LEVEL = 'other'      # bounded stand-ins only: never reported as proof
 TRUSTED = ['tools/cxx2c.py lowering', 'props/c02/dw_model*.h: assumed contract of dwarf_child / dwarf_siblingof / dwarf_offdie / dwarf_dieoffset / dwarf_nextcu on a well-formed .debug_info forest (error returns not modelled)']
 ASSUMPTIONS = [
     'libdw is replaced by a forest model: DIEs numbered in section order with a parent array and ascending offsets; a unit DIE has no sibling; unit headers sit a fixed 11 bytes before their unit DIE',
